@@ -1069,6 +1069,94 @@ def _functions(tree: ast.Module, modname: str):
     return out
 
 
+def _param_names(fn: ast.FunctionDef) -> list[str]:
+    a = fn.args
+    return [x.arg for x in [*a.posonlyargs, *a.args, *a.kwonlyargs]] + ([a.vararg.arg] if a.vararg else []) + ([a.kwarg.arg] if a.kwarg else [])
+
+
+def recover_function_renames(trees: dict[str, ast.Module], log: list[str]) -> None:
+    """R0 (package-wide, before the per-module rewrites): a function of the reference that is missing from its
+    container (module / class) while the same container holds a function that is new w.r.t. the reference is a
+    *rename* when the pairing is unambiguous (one missing and one new function in that container with the same
+    number of parameters, or equal local-name lists); the new identifier is then renamed back everywhere in the
+    package (definitions, names, attributes, import aliases, exact string constants), provided that the new
+    identifier names nothing else in the package and the old identifier is no longer used anywhere."""
+    ref = reference()["functions"]
+    cur: dict[str, ast.FunctionDef] = {}
+    for mod, tree in trees.items():
+        for q, f, c, b in _functions(tree, mod):
+            cur[q] = f
+    mods = set(trees)
+
+    def container(q: str) -> str:
+        return q.rsplit(".", 1)[0]
+
+    def known_container(c: str) -> bool:
+        return any(c == m or c.startswith(m + ".") for m in mods)
+
+    missing: dict[str, list[str]] = {}
+    for q in ref:
+        if q not in cur and known_container(container(q)):
+            missing.setdefault(container(q), []).append(q)
+    if not missing:
+        return
+    new: dict[str, list[str]] = {}
+    for q in cur:
+        if q not in ref:
+            new.setdefault(container(q), []).append(q)
+    # identifiers in use anywhere in the package
+    used: dict[str, int] = {}
+    defs: dict[str, int] = {}
+    for tree in trees.values():
+        for n in ast.walk(tree):
+            if isinstance(n, ast.Name):
+                used[n.id] = used.get(n.id, 0) + 1
+            elif isinstance(n, ast.Attribute):
+                used[n.attr] = used.get(n.attr, 0) + 1
+            elif isinstance(n, (ast.FunctionDef, ast.AsyncFunctionDef, ast.ClassDef)):
+                defs[n.name] = defs.get(n.name, 0) + 1
+            elif isinstance(n, ast.arg):
+                used[n.arg] = used.get(n.arg, 0) + 1
+            elif isinstance(n, ast.keyword) and n.arg:
+                used[n.arg] = used.get(n.arg, 0) + 1
+    pairs: dict[str, str] = {}  # new identifier -> old identifier
+    for c, miss in missing.items():
+        cand = list(new.get(c, []))
+        for mq in miss:
+            rl = ref[mq]["locals"]
+            same_locals = [nq for nq in cand if local_names(cur[nq]) == rl]
+            if len(same_locals) == 1:
+                pick = same_locals[0]
+            elif len(miss) == 1 and len(cand) == 1 and len(_param_names(cur[cand[0]])) <= len(rl) \
+                    and _param_names(cur[cand[0]]) == rl[:len(_param_names(cur[cand[0]]))]:
+                pick = cand[0]
+            else:
+                continue
+            old_id, new_id = mq.rsplit(".", 1)[1], pick.rsplit(".", 1)[1]
+            if old_id == new_id or defs.get(new_id, 0) != 1 or used.get(old_id, 0) or defs.get(old_id, 0):
+                continue
+            if new_id.startswith("__") and new_id.endswith("__"):
+                continue
+            pairs[new_id] = old_id
+            cand.remove(pick)
+    if not pairs:
+        return
+    for tree in trees.values():
+        for n in ast.walk(tree):
+            if isinstance(n, ast.Name) and n.id in pairs:
+                n.id = pairs[n.id]
+            elif isinstance(n, ast.Attribute) and n.attr in pairs:
+                n.attr = pairs[n.attr]
+            elif isinstance(n, (ast.FunctionDef, ast.AsyncFunctionDef)) and n.name in pairs:
+                n.name = pairs[n.name]
+            elif isinstance(n, ast.alias) and n.name in pairs:
+                n.name = pairs[n.name]
+            elif isinstance(n, ast.Constant) and isinstance(n.value, str) and n.value in pairs:
+                n.value = pairs[n.value]
+    for k, v in pairs.items():
+        log.append(f"R0 function rename recovered: {k} -> {v}")
+
+
 def normalize_module(tree: ast.Module, modname: str, log: list[str] | None = None) -> ast.Module:
     log = log if log is not None else []
     ref = reference()["functions"]
